@@ -19,7 +19,7 @@ REC_HEADER = " ".join(["#child_id", "chromosome", "position1", "position2", "tra
 
 # ---------------------------------------------------------------------------------------- scenario
 STRUCTURES = ["two_trios", "trio_single", "quartet_single", "quartet", "two_trios", "trio_two_singles",
-              "three_singles", "two_trios_single", "trio_single"]
+              "three_singles", "two_trios_single", "trio_single", "three_gen", "three_gen_single", "three_gen_maternal"]
 NAME_POOLS = [
     ["s1", "s10", "s1a", "s2", "S2", "s02", "s100", "s1_b"],          # shared prefixes, case, numeric order
     ["zeta", "Alpha", "mid", "alpha", "omega", "Beta", "m", "zz"],     # sorting against role
@@ -36,6 +36,11 @@ ROLES = {
     "trio_two_singles": (["K1", "F1", "M1", "U1", "U2"], [("K1", "F1", "M1")]),
     "three_singles": (["U1", "U2", "U3"], []),
     "two_trios_single": (["K1", "F1", "M1", "K2", "F2", "M2", "U1"], [("K1", "F1", "M1"), ("K2", "F2", "M2")]),
+    # three generations: F1 is the child of GF x GM and the father of K1 (upper trio listed first here;
+    # the order of the PED lines is a separate dimension)
+    "three_gen": (["K1", "F1", "M1", "GF", "GM"], [("F1", "GF", "GM"), ("K1", "F1", "M1")]),
+    "three_gen_single": (["K1", "F1", "M1", "GF", "GM", "U1"], [("F1", "GF", "GM"), ("K1", "F1", "M1")]),
+    "three_gen_maternal": (["K1", "F1", "M1", "GF", "GM"], [("M1", "GF", "GM"), ("K1", "F1", "M1")]),
 }
 
 
@@ -78,6 +83,9 @@ def make_spec(rng, force=None):
         # and hence different phase-set names per chromosome): state leaking from one chromosome to the next
         # then hits existing positions
         "same_coords": rng.random() < 0.45,
+        # three-generation families: the grandchild's PED line before (True) / after (False) its parent's line,
+        # None: as ped_shuffle decides
+        "ped_child_first": rng.choice([None, True, False]),
     }
     if rng.random() < 0.06:
         spec["all_hom_chrom"] = rng.randrange(spec["nchrom"])
@@ -340,6 +348,8 @@ def build_scenario(spec, wd):
     lines = [f"FAM{k}\t{ch}\t{fa}\t{mo}\t0\t1\n" for k, (ch, fa, mo) in enumerate(trios)]
     if spec.get("ped_shuffle"):
         rng.shuffle(lines)
+    if spec["structure"].startswith("three_gen") and spec.get("ped_child_first") is not None:
+        lines.sort(key=lambda l: (l.split("\t")[1] == trios[1][0]) != spec["ped_child_first"])
     if spec.get("ped_extra") or not lines:
         lines.insert(rng.randint(0, len(lines)), "FAMX\tghost_child\tghost_father\tghost_mother\t0\t1\n")
     with open(os.path.join(wd, "fam.ped"), "w") as f:
